@@ -300,12 +300,12 @@ _tags = {'address', 'article', 'aside', 'base', 'basefont', 'blockquote',
 _tag   = r'[A-Za-z][A-Za-z0-9-]*'  # noqa: E221
 _attrs = r'(?:\s+[A-Za-z_:][A-Za-z0-9_.:-]*(?:\s*=\s*(?:[^\s"\'=<>`]+|\'[^\']*?\'|"[^\"]*?"))?)*'
 
-_open_tag    = r'(?<!\\)<' + _tag + _attrs + r'\s*/?>'  # noqa: E221
-_closing_tag = r'(?<!\\)</' + _tag + r'\s*>'
-_comment     = r'(?<!\\)<!--(?!>|->)(?:(?!--).)+?(?<!-)-->'  # noqa: E221
-_instruction = r'(?<!\\)<\?.+?\?>'
-_declaration = r'(?<!\\)<![A-Z].+?>'
-_cdata       = r'(?<!\\)<!\[CDATA.+?\]\]>'  # noqa: E221
+_open_tag    = r'<' + _tag + _attrs + r'\s*/?>'  # noqa: E221
+_closing_tag = r'</' + _tag + r'\s*>'
+_comment     = r'<!--(?!>|->)(?:(?!--).)+?(?<!-)-->'  # noqa: E221
+_instruction = r'<\?.+?\?>'
+_declaration = r'<![A-Z].+?>'
+_cdata       = r'<!\[CDATA.+?\]\]>'  # noqa: E221
 
 
 class HtmlSpan(SpanToken):
@@ -316,11 +316,17 @@ class HtmlSpan(SpanToken):
     Attributes:
         content (str): the raw HTML content.
     """
-    pattern = re.compile('|'.join([_open_tag, _closing_tag, _comment,
-                                   _instruction, _declaration, _cdata]),
-                                   re.DOTALL)
+    pattern = re.compile(r'(?<!\\)(?:\\\\)*(' + '|'.join([_open_tag, _closing_tag, _comment,
+                                                        _instruction, _declaration, _cdata]) + ')',
+                         re.DOTALL)
     parse_inner = False
     parse_group = 0
+
+    @classmethod
+    def find(cls, string):
+        # the opening bracket must not be escaped; escaped backslashes in front of it are not part of the token
+        return [core_tokens.MatchObj(match.start(1), match.end(), (match.start(1), match.end(1), match.group(1)))
+                for match in cls.pattern.finditer(string)]
 
 
 HTMLSpan = HtmlSpan
